@@ -89,9 +89,10 @@ class _Mod:
 
 
 mod = _Mod()
-USER = {"fa": fa, "fb": fb, "fc": fc, "wrap": wrap, "mod": mod, "pad": pad}
-IMPORTS = ["from vf.props.c02 import fa, fb, fc, wrap, mod, pad"]
-MODBLOCK = "<%! from vf.props.c02 import fa, fb, fc, wrap, mod, pad %>"
+# (`u` is the url-escape flag when written bare; `u.f` is an attribute of the object called u, like any other expression)
+USER = {"fa": fa, "fb": fb, "fc": fc, "wrap": wrap, "mod": mod, "pad": pad, "u": mod}
+IMPORTS = ["from vf.props.c02 import fa, fb, fc, wrap, mod, pad", "from vf.props.c02 import mod as u"]
+MODBLOCK = "<%! from vf.props.c02 import fa, fb, fc, wrap, mod, pad, mod as u %>"
 
 BUILTIN = {
     "h": markupsafe.escape, "x": r_x, "u": r_u, "trim": lambda s: s.strip(), "entity": r_entity,
@@ -220,7 +221,7 @@ def check_case(case, ev=None):
         raise core.HarnessError("reference failed on %r: %r" % (case, e))
     ctx = {"v": case["value"], "d": {"k": case["value"], "a|b}": case["value"]}, "ident": lambda z: z}
     if case.get("ctx_filters"):
-        ctx.update({k: USER[k] for k in ("fa", "fb", "fc", "wrap", "mod", "pad")})
+        ctx.update({k: USER[k] for k in ("fa", "fb", "fc", "wrap", "mod", "pad", "u")})
     try:
         t = Template(text, uri="/c02_%d.html" % next(_uri_counter), **kw)
         out = t.render_unicode(**ctx)
@@ -280,7 +281,9 @@ def strategies():
         body = body.replace(q[0], "\\" + q[0])
         return q + body.replace("\x01", cont) + q
     strlit = st.builds(lit, st.lists(lit_chars, max_size=6).map("".join), st.sampled_from(["'", '"', "'''", '"""']))
-    leaf = st.one_of(st.just("v"), st.just("v"), strlit, st.just("d['k']"), st.just("d['a|b}']"), st.just('d["a|b}"]'))
+    # triple-quoted literals holding their own quote character unescaped (an odd number of them), then } or |
+    triple = st.sampled_from(["\'\'\'it\'s } fine\'\'\'", '"""5" | 6}"""', "\'\'\'a\' | b} c\'\'\'", '"""x"y}"""', "\'\'\'|\'}\'\'\'"])
+    leaf = st.one_of(st.just("v"), st.just("v"), strlit, triple, st.just("d['k']"), st.just("d['a|b}']"), st.just('d["a|b}"]'))
 
     def ext(child):
         return st.one_of(
@@ -307,7 +310,7 @@ def strategies():
     expr = st.recursive(leaf, ext, max_leaves=4)
 
     filt = st.sampled_from(["h", "x", "u", "trim", "entity", "str", "unicode", "decode.utf8", "decode.latin1", "n",
-                            "fa", "fb", "fc", "mod.f", "wrap('<', '>')", "wrap('}', '|')", "wrap(\"(\", ')')", "wrap('', '')",
+                            "fa", "fb", "fc", "mod.f", "u.f", "wrap('<', '>')", "wrap('}', '|')", "wrap(\"(\", ')')", "wrap('', '')",
                             "pad({'l': '[', 'r': ']'})", "pad({'l': '{'})", "pad({k: k.upper() for k in 'lr'})", "pad({'x', '!'})"])
     local = st.lists(filt, max_size=4)
     value = st.one_of(st.just(VALUE0), st.text(st.sampled_from(list(" <>&\"'aé|}%+/")), max_size=8))
